@@ -26,13 +26,13 @@ CHECKS = {
    technique="differential/metamorphic: civil classification derived from the reference reader's instant direction (set of instants displaying the civil time) and from jiff's own instant mapping; structured sweep of every gap/fold window edge + proptest",
    category="exploration",
    text="Both wall-clock edges of every transition of every zone are probed to the nanosecond, plus the extreme civil datetimes; classification, all four strategies and every civil->zoned entry point are compared with the instant-direction oracle; out-of-range results must be errors, not panics.",
-   note="Trusted: reftz.rs instant direction (C03). Civil times displayed by >= 3 instants are skipped and counted.",
+   note="Trusted: reftz.rs instant direction (C03). Civil times displayed by >= 3 instants are skipped and counted. ./check runs the whole check twice: in the default build and in a build of the harness without jiff's tz-fat feature (where the hand-over from the recorded table to the footer rule is live for every real zone); the evidence file describes the first pass, the second writes to a scratch directory but its violations and replay files are real.",
    design="DESIGN.md section 3 C04"),
  "C05": dict(
    technique="differential proptest over an API table: ~180 public fallible operations called with limit-biased generated arguments in two builds of the same harness (debug assertions + overflow checks on, and release) connected by a pipe; oracle = no panic in either build, range predicates and print/parse canaries on every Ok value (evaluated inside the panic guard), and identical answers in both builds; proptest shrinking works across both builds",
    category="exploration",
    text="Rows cover constructors, checked/saturating arithmetic with Span/SignedDuration/Duration, until/since with every option, round, with-builders, series, civil->instant conversion with every disambiguation and offset-conflict strategy, Span checked_add/sub/mul/round/total/compare/to_duration with every kind of relative datetime, duration and offset conversions. Arguments: dates/times/timestamps at and next to their limits, instants at zone transitions of 30 zones (incl. +-25:59:59, right/, POSIX, synthetic), spans with units at their limits, increments {divisors, 0, -1, i64::MIN/MAX, non-divisors}, integers at the limits of i8/i16/i32/i64/i128, special floats.",
-   note="'With debug assertions' is the dbg profile (optimised, debug-assertions and overflow-checks on); 'without' is the rel profile. Which of Ok/Err is right is left to C06..C12. Option-returning and documented-panicking APIs are not rows. FromStr of durations, spans, timestamps and dates (text built from generated unit values up to the limits of i64) are rows.",
+   note="'With debug assertions' is the dbg profile (optimised, debug-assertions and overflow-checks on); 'without' is the rel profile. Which of Ok/Err is right is left to C06..C12. Option-returning and documented-panicking APIs are not rows. FromStr of durations, spans, timestamps and dates (text built from generated unit values up to the limits of i64) are rows, and so is TimeZone::tzif on a real file with one local-time-type index pushed to the end of its table (accepted zones are then queried).",
    design="DESIGN.md section 3 C05"),
  "C06": dict(
    technique="proptest generation of (zone, instant near transitions, span/duration) against a reference interpreter (civil add on day numbers, compatible resolution via the independent zone reader, exact nanosecond add); targeted construction of starts whose civil intermediate lands inside a gap/fold",
@@ -79,7 +79,7 @@ CHECKS = {
  "C13": dict(
    technique="stateful (model-based) proptest: generated histories of 35 public operation kinds interpreted step by step; invariant evaluated after every successful step through jiff's own lookups and through the independent zone reader; histories shrink as one value",
    category="exploration",
-   text="Start values in any database zone around transitions, then 1..12 operations (arithmetic, rounding, every with-builder incl. offset/conflict/disambiguation strategies, zone changes, day/month/year navigation, print->parse, strftime->strptime, civil->zoned strategies, until-then-add-back, epoch neighbourhood jumps). After each step: stored offset == zone's offset at the instant, stored civil == instant shifted by it (both vs jiff and vs the reference), instant coherent, and every field accessor of the Zoned (year..nanosecond, weekday, day_of_year, days_in_month/year, leap year, era, ISO week date) reads the reference civil time; Zoned::default() is held to the same invariant; finally Eq/Ord/Hash depend on the instant only.",
+   text="Start values in any database zone around transitions, then 1..12 operations (arithmetic, rounding, every with-builder incl. offset/conflict/disambiguation strategies, zone changes, day/month/year navigation, print->parse, strftime->strptime, civil->zoned strategies, until-then-add-back, epoch neighbourhood jumps). After each step: stored offset == zone's offset at the instant, stored civil == instant shifted by it (both vs jiff and vs the reference), instant coherent, and every field accessor of the Zoned (year..nanosecond, weekday, day_of_year, days_in_month/year, leap year, era, ISO week date) reads the reference civil time; Zoned::default() is held to the same invariant; finally Eq/Ord/Hash depend on the instant only, in every spelling (values, references, reference vs value; ==, !=, <, <=, partial_cmp).",
    note="Operations returning Err leave the state unchanged (counted). Trusted: reftz.rs. Zones are those reachable by name through the global database, fixed offsets and UTC.",
    design="DESIGN.md section 3 C13"),
  "C14": dict(
@@ -103,13 +103,13 @@ CHECKS = {
  "C17": dict(
    technique="grammar- and structure-aware mutation fuzzing with the oracle inside the target: deterministic proptest mutation engine (quick) and coverage-guided libFuzzer/ASan campaigns on the same targets (thorough)",
    category="exploration",
-   text="Valid printed values and real/synthetic TZif files are mutated (truncation, digit overflow, sign/separator swaps, long runs, invalid UTF-8; header counts, extreme/unsorted transitions, offsets, designation indexes, hostile footers) and fed to every parser; no panic, Ok values in range and re-printable, accepted zones answer a battery of lookups, accepted RFC 2822 text prints back (both timestamp printers, RFC 2822 and RFC 9110) to text that parses to the identical value, BrokenDownTime::parse_prefix is driven with the same (format, input) pairs (consumed length within the input, agreement with parse), peak heap while parsing TZif bounded by a multiple of the input (counting allocator), coarse time-scaling test.",
+   text="Valid printed values and real/synthetic TZif files are mutated (truncation, digit overflow, sign/separator swaps, long runs, invalid UTF-8; header counts, extreme/unsorted transitions, offsets, designation indexes, hostile footers) and fed to every parser; no panic, Ok values in range and re-printable, accepted zones answer a battery of lookups, accepted RFC 2822 text prints back (both timestamp printers, RFC 2822 and RFC 9110) to text that parses to the identical value, accepted POSIX time zones print (time_zone_to_string) to text that TimeZone::posix and parse_time_zone read back as an equal zone with equal answers, BrokenDownTime::parse_prefix is driven with the same (format, input) pairs (consumed length within the input, agreement with parse), peak heap while parsing TZif bounded by a multiple of the input (counting allocator), coarse time-scaling test.",
    note="A process abort (stack overflow, memory error) is reported through a crash guard that names the running case. 'Work proportional to input' is decided by heap accounting plus a coarse timing test, not a complexity proof. The concatenated-tzdata reader has its own structure-aware mutation check (c17.concat: generated tzdata files with mutated header words, index entries, names, truncations, through from_concatenated_path/available/get).",
    design="DESIGN.md section 3 C17"),
  "C18": dict(
    technique="differential proptest and exhaustive per-zone sweeps: one TZif byte string loaded through every back-end (zoneinfo directory, bundled table, generated Android-style concatenated file, raw bytes, static get!/include! macros) must give byte-identical answer digests; the same digests are computed by a second harness binary built without tz-fat and compared across builds; slim vs fat zic output compared from the first common transition; generated case variants of names; POSIX print/parse round trip on generated rules",
    category="exploration",
-   text="Every bundled and installed zone plus the synthetic corpus, at the C03/C04/C14 probe instants (each transition +-1s/+-0.5ns, civil gap/fold edges, far past/future): offset info, civil resolution, previous/next transitions, printing. Name lookup with random case changes returns the canonical spelling; the same name with one letter replaced by a non-ASCII character that Unicode case mapping folds onto it (KELVIN SIGN, LONG S, dotted/dotless I, fullwidth letters) must be refused by every back-end. A private zoneinfo tree of ~90 bundled zones in which every directory also holds dangling symlinks, a symlink loop, empty/short/non-TZif files and empty directories must serve every zone (three spellings) and list exactly the zones (c18.dir_obstacles). Generated POSIX rules (J/n/M dates, negative and >24h times, quoted abbreviations) print to a string that parses to a zone with identical answers. Generated slim TZif files whose footer rule needs local time types absent from the table (longer/shorter designations, look-alike types) are loaded, and the fattened answers compared with the reference reading of table + footer.",
+   text="Every bundled and installed zone plus the synthetic corpus, at the C03/C04/C14 probe instants (each transition +-1s/+-0.5ns, civil gap/fold edges, far past/future): offset info, civil resolution, previous/next transitions, printing. Name lookup with random case changes returns the canonical spelling; the same name with one letter replaced by a non-ASCII character that Unicode case mapping folds onto it (KELVIN SIGN, LONG S, dotted/dotless I, fullwidth letters) must be refused by every back-end. A private zoneinfo tree of ~90 bundled zones in which every directory also holds dangling symlinks, a symlink loop, empty/short/non-TZif files and empty directories must serve every zone (three spellings) and list exactly the zones (c18.dir_obstacles). Generated POSIX rules (J/n/M dates, negative and >24h times, quoted abbreviations) print to a string that parses to a zone with identical answers, both through the Debug form + TimeZone::posix and through the documented pair time_zone_to_string/print_time_zone -> parse_time_zone/parse_time_zone_with. Generated slim TZif files whose footer rule needs local time types absent from the table (longer/shorter designations, look-alike types) are loaded, and the fattened answers compared with the reference reading of table + footer.",
    note="The tz-fat-off configuration is a second build of the same harness (target-nofat) whose digest is compared line by line. tz::include! is exercised on the synthetic corpus at harness build time (build.rs); the jiff-static copy of shared code is therefore compared with the original on the same bytes.",
    design="DESIGN.md section 3 C18"),
  "C19": dict(
@@ -122,7 +122,7 @@ CHECKS = {
    technique="model-based testing of generated handle programs (reference model = payload per handle + allocation model via a counting global allocator), exhaustive enumeration of all fixed offsets, and the same interpreter as a libFuzzer target under AddressSanitizer/LeakSanitizer (thorough)",
    category="exploration",
    text="Programs of up to ~150 operations over a pool of TimeZone handles of every kind (UTC, unknown, fixed, POSIX, TZif bytes, static get!) with clone/clone_from (directly and through Option/Vec)/drop/move-through-Zoned/eq/query/swap and send-to-thread; every live handle must answer like a freshly built zone, equality laws hold, clones and non-last drops do not change live heap blocks, last drops free, nothing leaks; all 187,199 fixed offsets reproduce exactly; every other program runs with its heap blocks placed at 8 mod 16 (alignment assumptions of the tagged pointer); the system zone as an unnamed TZif handle (TZ=:/path) obeys the same equality laws and answers like the same bytes loaded directly.",
-   note="Use-after-free/double free proper are caught by ASan in the thorough tier; in the quick tier through the allocation model, wrong answers, or a process abort (crash guard + glibc malloc checking to name the case). Thread interleavings are sampled.",
+   note="Use-after-free/double free proper are caught by ASan in the thorough tier; in the quick tier through the allocation model, wrong answers, or a process abort (crash guard + glibc malloc checking to name the case). Thread interleavings are sampled. Sweep cases are covered by the crash guard as well (a process that dies inside a sweep is reported as a violation with a replayable case, not as a tool failure).",
    design="DESIGN.md section 3 C20"),
 }
 
